@@ -354,7 +354,9 @@ impl<'a> Walk<'a> {
         F: Fn(Path) + Sync + Send,
         's: 'w,
     {
-        if level > self.depth {
+        // `level` is the nesting level of this directory below the input path (0 = the input
+        // path itself); its entries are at `level + 1`, which must not exceed the depth limit
+        if level >= self.depth {
             return;
         }
         if !self.path_selector.matches_dir(&path) {
